@@ -1,6 +1,7 @@
 //! rverif: executes scenario families against the real ractor code and records traces.
 //! All policy (what to validate, verdicts) lives in /verif/tools.
 mod explore;
+mod fam_framing;
 mod fam_lifecycle;
 mod fam_mailbox;
 mod tdrv;
@@ -56,6 +57,7 @@ fn main() {
     let fams: &[fn(&str, &HashMap<String, String>) -> Option<serde_json::Value>] = &[
         fam_mailbox::dispatch,
         fam_lifecycle::dispatch,
+        fam_framing::dispatch,
     ];
     for f in fams {
         if let Some(summary) = f(&cmd, &a) {
